@@ -99,5 +99,7 @@ Definition entry (x : sx) : sx :=
       else if head_is "encode_line" h then e_encode_line args
       else if head_is "encode_text" h then e_encode_text args
       else if head_is "decode_string" h then e_decode_string args
+      else if head_is "encode_utext" h then e_encode_utext args
+      else if head_is "decode_utext" h then e_decode_utext args
       else sx_err "unknown function"
   end.
